@@ -76,6 +76,10 @@ def c04(tier):
                 insts.append(p_raw(tpl, dl, cm, om, timeout=800))
         insts.append(p_raw("..", "eq", "hash", 0, follow=("FOLLOW_GETTERS",), timeout=800))
         insts.append(p_raw("..", "eq", "hash", 0, follow=("FOLLOW_WRITE",), timeout=800))
+        # second half of the decomposition (DESIGN.md 6/C04): every getter / listing and the merge from arbitrary states
+        # satisfying the invariant I, with all built-in memory-safety checks (values: arbitrary bytes, e.g. only blanks)
+        insts += [i for i in step_insts(1, "quick", 3) if "-L1-" in i.name or "-L2-g01-t0" in i.name][:5]
+        insts += [m_inst(1, 1, gb="0", go="0"), m_inst(2, 2, gb="01", go="10"), m_inst(0, 2, gb="", go="01")]
     else:
         for tpl in raw_structures(6):
             for dl in DELIMS:
@@ -89,6 +93,9 @@ def c04(tier):
                     insts.append(p_raw(tpl, dl, cm, 0, follow=(fl,), timeout=1800))
         for tpl in raw_structures(4):
             insts.append(p_raw(tpl, "eq", "hash", 0, exact=True, timeout=1200))
+        insts += step_insts(1, "thorough", 4) + step_insts(0, "quick", 2)
+        for nb, no in ((1, 1), (2, 1), (1, 2), (2, 2), (0, 2), (2, 0)):
+            for gb, go in canon_patterns(nb, no): insts.append(m_inst(nb, no, gb=gb, go=go))
     return {"instances": insts, "assumptions": COMMON_ASSUME + ["byte strings are enumerated by their line structure (positions of NL), all other bytes symbolic: complete for the stated length",
             "parsing options are set on the object directly (the option tokenizer is checked under C15)",
             "decomposition of the 'whenever it succeeds' half: the parser harness establishes the representation invariant I of the parsed object for every byte string; getters, listings, merge and write are decided with the same memory-safety checks from arbitrary states satisfying I by the C10/C11 (S-step), C03 (M) and C07 (W) harnesses; listings and string getters (and on 2-byte files all typed/extended getters and write+read-back) additionally run directly on the parsed object"],
